@@ -437,6 +437,10 @@ func c02Alphabet(k ref.Kind, l geom.Layout) []c02Op {
 			s.m, s.om = s.om, s.m
 			return ""
 		}})
+		ops = append(ops, c02Op{"Swap(the receiver itself)", func(s *c02State) string {
+			swapT(s.g, s.g) // exchanging a value with itself leaves it as it is
+			return ""
+		}})
 		ops = append(ops, c02Op{"g=g.Clone()", func(s *c02State) string {
 			cl := cloneOf(s.g)
 			s.shadow = s.g
